@@ -6,11 +6,25 @@ LEVEL_TEXT = ("for every registry meeting DecoderOK, every input and depth, Mult
               "transition clause E1, postconditions of scan) to keep the global tree invariant: every child-list entry c of every node p has "
               "c.parent is p and 0 <= c.start <= c.end <= len(p.value), siblings are distinct objects, the root is a fresh node carrying the "
               "unmodified input; Node.__init__/shift/original/shift_nodes are proved against their contracts")
-LEVEL_NOTE = ("assumes DecoderOK of the registry entries (the shipped decoders are checked against it under C01/C03 decoder obligations as they are "
-              "brought under contract), the stable-sort contract of sorted(); acyclicity of the result is argued, not proved; a bounded stand-in "
+LEVEL_NOTE = ("the engine proof assumes DecoderOK of the registry entries; DecoderOK (spans, parent links, freshness, write frame) is PROVED for the 21 "
+              "decoder functions under contract and only run-time checked (bounded) for the others, which are named in the evidence, the stable-sort contract of sorted(); acyclicity of the result is argued, not proved; a bounded stand-in "
               "(real engine on enumerated hit configurations) runs next to the proof")
 DESIGN_REF = "DESIGN.md 5, 6 (C03)"
-FUNCTIONS = ENGINE_FUNCS + ["multidecoder.node.shift_nodes"]
+from props import decoder_common as DC  # noqa: E402
+
+FUNCTIONS = ENGINE_FUNCS + ["multidecoder.node.shift_nodes", "multidecoder.xor_helper.apply_xor_key", "multidecoder.decoders.shell.find_cmd_strings"] + DC.SIMPLE_DECODERS
 EXCLUDE_CLAUSES = CORE_ONLY
-TRUSTED = ENGINE_TRUSTED
-BOUNDED = [engine_bounded(("C03",))]
+# the decoders' value / label clauses belong to C10-C16; C03 takes their span, parent-link, freshness and frame obligations
+SELECT = [r"^(?!.*(value-|/each/type|/each/label|each-type|each-label|post-each/type|post-each/label|cmd-exe|not-past-the-cut|before-the-cut)).*$"]
+TRUSTED = ENGINE_TRUSTED + [DC.NOT_UNDER_CONTRACT]
+BOUNDED = [engine_bounded(("C03",)), DC.bounded_decoder_spans, DC.bounded_scan_wf]
+
+
+def replay(case):
+    if "text" in case:
+        from props import engine_rt
+
+        return engine_rt.replay(case)
+    return DC.replay(case)
+
+DEMOTED = {r"find_cmd_strings/safe/IndexError@L\d+:list index": "split[0] needs `the de-escaped match contains a non-blank byte` (a fact about caret_from over L(CMD_RE)) which z3 cannot derive; covered by the run-time stand-in"}
